@@ -118,3 +118,13 @@ def r19_2(ctx):
             ctx.check(ok, "%s and %s have matching widths per integration interval" % (a, b), detail="initialiser width differs from the hidden argument's",
                       expected="%s columns when i==0 else one more, in both lists" % base, found="%s <-> %s" % (ast.unparse(apps[a].args[0]), ast.unparse(apps[b].args[0])), fi=g,
                       sample={"arg": ast.unparse(apps[a].args[0]), "init": ast.unparse(apps[b].args[0])})
+
+
+@rule("R19.3", min_instances=20, desc="the imperative side of the comparison: set_value / set_initial tables and the FreeTime default guess behave as to_function's arguments do (shared with C09, C10, C11)")
+def r19_3(ctx):
+    from .c09 import r09_1
+    from .c10 import r10_3
+    from .c11 import r11_1
+    r09_1(ctx)
+    r10_3(ctx)
+    r11_1(ctx)
